@@ -192,6 +192,7 @@ class Impl:
         self.root.addHandler(self.catcher)            # also keeps logging.info() from calling basicConfig()
         self._oracle = {}
         self._alt = {}
+        self.saw_command_chat = False
         self.runs = 0
         self._garbage = []
 
@@ -257,6 +258,8 @@ class Impl:
             if out2 is not None and out2 != out:
                 self._alt[out2] = out
         r = (name, body_ok, sid, out, bool(consumed))
+        if consumed and name == "ChatFromViewer":
+            self.saw_command_chat = True
         self._oracle[payload] = r
         return r
 
@@ -1254,8 +1257,7 @@ def _run_batch(ctx, impl: Impl, batch, res: CorrResult, dist, viol_classes, iso_
     kept = []
     for tag, sc in batch:
         line = model_line(impl, sc)
-        if any(o is not None and o[4] and o[0] == "ChatFromViewer" for o in impl._oracle.values()
-               if o is not None) and _has_command_chat(impl, sc):
+        if impl.saw_command_chat and _has_command_chat(impl, sc):
             dist["skipped:command-channel chat"] = dist.get("skipped:command-channel chat", 0) + 1
             continue
         kept.append(((tag, sc), line))
@@ -1299,9 +1301,7 @@ def correspond(ctx):
         # ---- routing scenarios
         P = Payloads(impl, ctx.rng, all_types=ctx.thorough)
         res = CorrResult(suite="routing: real InterceptingLLUDPProxyProtocol vs extracted model",
-                         rule="corpus cases first; then every event sequence up to length %d over 10 event kinds (handshake, "
-                              "bad session id, valid out/in, banned, CloseCircuit, undecodable, frag, no circuit, "
-                              "self-addressed) on one session/region/association (exhaustive); then seeded random scenarios "
+                         rule="corpus cases first; then seeded random scenarios "
                               "with 1-2 sessions, 1-3 regions each, 1-2 associations and up to %d datagrams mixing real "
                               "serialized Messages (%s template types, random flags/acks/zerocoding) in both directions "
                               "with 14 malformed/mis-addressed families; per event the outcome (which log/raise), the "
@@ -1309,7 +1309,7 @@ def correspond(ctx):
                               "main_region/regions/circuits are compared; the statement of C06 is evaluated on the "
                               "implementation for every scenario incl. re-running it without each discarded datagram; "
                               "non-trivial = scenario in which at least one datagram is forwarded"
-                              % (ctx.pick(3, 4), ctx.pick(12, 40), "all 481" if ctx.thorough else "randomly chosen"))
+                              % (ctx.pick(12, 40), "all 481" if ctx.thorough else "randomly chosen"))
         dist, vio = {}, {}
         nontriv = 0
         total = 0
@@ -1317,11 +1317,20 @@ def correspond(ctx):
         if corpus:
             nontriv += _run_batch(ctx, impl, corpus, res, dist, vio, None)
             total += len(corpus)
-        batch = []
-        for tag, sc in exhaustive_scenarios(ctx, impl, ctx.pick(3, 4)):
-            batch.append(("exh:" + tag, sc))
-        nontriv += _run_batch(ctx, impl, batch, res, dist, vio, None)
-        total += len(batch)
+        depth = ctx.pick(3, 4)
+        exh = CorrResult(suite="routing, exhaustive small scope: real protocol vs extracted model", exhaustive=True,
+                         rule="every event sequence of length 1..%d over 10 event kinds (handshake, bad session id, valid "
+                              "out/in, banned, CloseCircuit, undecodable, frag, no circuit, self-addressed) on one "
+                              "session/region/association; same comparison and impl-level oracle as the random suite; "
+                              "non-trivial = at least one datagram forwarded" % depth)
+        edist, evio = {}, {}
+        batch = [("exh:" + tag, sc) for tag, sc in exhaustive_scenarios(ctx, impl, depth)]
+        exh.distinct_nontrivial = _run_batch(ctx, impl, batch, exh, edist, evio, None)
+        exh.evaluations = len(batch)
+        exh.distribution = {"event_outcomes": edist, "impl_violation_classes": evio}
+        exh.samples = [{"tag": t, "events": len(sc["events"])} for t, sc in batch[500:503]]
+        exh.impl_violations.sort(key=lambda v: v.get("class") in (POISON_CLASS, RLV_CLASS))
+        out.append(exh)
         nrand = ctx.pick(1500, 8000)
         done = 0
         while done < nrand:
